@@ -114,6 +114,8 @@ func (t *ATable) AddSeparator() Table {
 	sep := newSeparator()
 	t.rows = append(t.rows, sep)
 	sep.inTable = t
+	// errors upon the separator (such as trying to add cells to it) are ours
+	sep.ErrorContainer = t.ErrorContainer
 	sep.rowNum = len(t.rows)
 	return t
 }
